@@ -78,5 +78,16 @@ class MonitoredLoop(asyncio.SelectorEventLoop):
         return out
 
 
+ENV = {"custom_task_factory": False}  # part of the environment of an execution, set by vf/child.py
+
+
+def _plain_task_factory(loop, coro, **kwargs):
+    """What many applications install (to name or wrap their tasks): an ordinary, lazy task factory."""
+    return asyncio.Task(coro, loop=loop, **kwargs)
+
+
 def new_loop():
-    return MonitoredLoop(selectors.DefaultSelector())
+    loop = MonitoredLoop(selectors.DefaultSelector())
+    if ENV["custom_task_factory"]:
+        loop.set_task_factory(_plain_task_factory)
+    return loop
